@@ -30,6 +30,18 @@ def run_check(prop: str, tier: str, src_root: str, write: bool = True, quiet: bo
         rep.analysed["modules"] = len(model.modules)
         rep.analysed["classes"] = sum(len(m.classes) for m in model.modules.values())
         mod.check(model, rep, tier)
+        if rep.undecided:
+            known = {(k.get("rule"), k.get("construct"), k.get("detail", "")) for k in __import__("qcolint.report", fromlist=["load_known"]).load_known() if k.get("property") == prop}
+            definite = [v for v in rep.violations() if (v["rule"], v["construct"], v.get("detail", "")) not in known]
+            if not definite:
+                # nothing definite and at least one rule could not read the code: the check as a whole is undecided
+                return 2, rep, f"ANALYSIS-ERROR property={prop} {rep.undecided[0]}"
+            # a violation is definite whatever other rules could not decide: report it, and say what stayed undecided
+            if not quiet:
+                for u in rep.undecided:
+                    print(f"UNDECIDED property={prop} (other rules decided a violation) {u.splitlines()[0]}")
+            rep.infos.extend("undecided: " + u for u in rep.undecided)
+            return rep.finish(), rep, None
         if not rep.obligations:
             raise AnalysisError("no obligation was generated (vacuous run)")
         return rep.finish(), rep, None
